@@ -28,6 +28,12 @@ CHECKS = [
   'level': 'For all sample values/times within the bounds: detected on-surface and crossing sets equal the specification, alpha in [0,1], each hit on the plane and inside its bracket with time and state '
            'interpolated by the same parameter, hits time-ordered, nothing lost in dedup when candidates are separated; _hermite_der is the derivative of _hermite_scalar for all arguments; cubic refinement stays in its bracket.',
   'note': 'N = 3 samples (4 thorough), two concrete normals with symbolic/concrete offset, state dim 6; segment_refine > 0 driver not encoded; convergence order under refinement is analysis outside the claim'},
+ {'id': 'C02',
+  'technique': 'B-series value domain driven through the real step/dense-output kernels (symbolic h, theta); coefficient residuals bounded by a solver-checked certificate; explorer for the zero-span shortcut',
+  'level': 'For every rooted tree up to the declared order (200 trees to order 8) the B-series of one step of the real kernels equals that of the exact flow; embedded estimators vanish to their order and not beyond; '
+           'dense outputs match the exact flow for all theta in [0,1] to their order; Hamiltonian twins and the centre-manifold RK copy have identical B-series; the fixed-step driver chains steps correctly; '
+           'the constant-solution shortcut fires only for an exactly zero span.',
+  'note': 'B-series theorem turns the decided coefficient identities into "order p for every smooth right-hand side"; tables read as the rationals/decimals nearest the stored doubles, eps 1e-13 (1e-10 for the DOP853 dense table); global error of adaptive runs not claimed'},
 ]
 _BUILT = {c['id'] for c in CHECKS}
 NOT_APPLICABLE = [
